@@ -767,6 +767,11 @@ func (w *W) opMerge() string {
 			return ""
 		}
 	}
+	// repeated append/prepend self-merges double lists: stay far below MaxIdx (1024), beyond
+	// which an index is a name in a dotted key and an error as an explicit argument
+	if maxList(dst.M)+maxList(srcTree) > 48 {
+		return ""
+	}
 
 	opts := append([]ucfg.Option{}, w.Opts...)
 	if o, ok := policyOpt[mo.Global]; ok {
@@ -826,6 +831,27 @@ func (w *W) opMerge() string {
 		}
 	}
 
+	// known finding O30: next to a "**" option, an explicit option whose path runs through a list index is lost
+	if len(mo.Fields) > 0 {
+		wild, indexed := false, false
+		for _, fo := range mo.Fields {
+			if fo.Wild {
+				wild = true
+				continue
+			}
+			for _, x := range fo.Path {
+				if _, err := strconv.Atoi(x); err == nil {
+					indexed = true
+				}
+			}
+		}
+		if wild && indexed {
+			if w.R.Avoid["O30"] {
+				return ""
+			}
+			w.opDetail = map[string]string{"wild_with_index": "true"}
+		}
+	}
 	// known finding O12: an option's path also matches every path that contains it as a subsequence
 	if len(mo.Fields) > 0 {
 		spurious := false
@@ -837,7 +863,13 @@ func (w *W) opMerge() string {
 		if spurious && w.R.Avoid["O12"] {
 			return ""
 		}
-		w.opDetail = map[string]string{"spurious_field_match": fmt.Sprint(spurious)}
+		if w.opDetail == nil {
+			w.opDetail = map[string]string{}
+		}
+		w.opDetail["spurious_field_match"] = fmt.Sprint(spurious)
+		if w.opDetail["wild_with_index"] == "" {
+			w.opDetail["wild_with_index"] = "false"
+		}
 	}
 
 	// C10 observations before
@@ -949,6 +981,17 @@ func spuriousMatch(p []string, trees ...*model.Node) bool {
 		})
 	}
 	return found
+}
+
+// maxList is the length of the longest list in a tree.
+func maxList(n *model.Node) int {
+	m := 0
+	n.Walk(func(x *model.Node, _ []model.Seg) {
+		if len(x.A) > m {
+			m = len(x.A)
+		}
+	})
+	return m
 }
 
 // clash reports whether merging b into a would create a node with both parts.
